@@ -6,7 +6,11 @@ different PYTHONHASHSEED / insertion orders / array layouts / sharing; the chunk
 to sha1 are recorded and must equal the model's stream (evaluated in coqc).
 Search: same value, different process/seed/realisation => identical identifier; and the identifier computed in an
 interpreter that has hashed many other values before equals the one computed in an interpreter that has hashed nothing
-(each spec once more in a forked child of a pristine process)."""
+(each spec once more in a forked child of a pristine process).
+Loading: small jugfiles (functions, TaskGenerators, keyword / set / dict / array arguments, tasklets, a mapped sequence) are loaded
+with the real jug.jug.init many times in one interpreter - relative, absolute, ./, redundant path components, from other working
+directories, interleaved with another jugfile - and in fresh interpreters with different PYTHONHASHSEED: the (task name, identifier)
+lists must all be the same (harness/c07load.py)."""
 import random
 
 from . import core
@@ -107,6 +111,7 @@ def run(ck):
         for s, r in zip(seeds, recs):
             cases.append(r['case'])
             meta.append({'spec': spec, 'seed': s})
+    load_section(ck, seeds)
     report_differing(ck, specs, results, seeds, differing)
     order_dependence(ck, specs, results, seeds)
     ck.sample({'spec': specs[len(specs) // 2], 'seeds': seeds})
@@ -119,6 +124,118 @@ def run(ck):
     for i in (fails or []):
         ck.violation({'kind': 'correspondence', 'what': 'sha1 chunk sequence of the real code differs from the model stream',
                       'spec': meta[i]['spec'], 'seed': meta[i]['seed'], 'coq_case': cases[i][:3000]})
+
+
+JUGFILES = {
+    'pipeline.py': """import numpy as np
+from jug import Task, TaskGenerator, Tasklet, iteratetask
+from jug.mapreduce import map as jug_map
+
+
+def double(x):
+    return 2 * x
+
+
+@TaskGenerator
+def total(xs, scale=1, *, tags=()):
+    return scale * sum(xs)
+
+
+@TaskGenerator
+def split(n):
+    return list(range(n)), {'n': n}
+
+
+base = Task(double, %(k)d)
+opts = total([base, 2, 3.5], scale=%(k)d, tags={'a', 'b', 'c'})
+parts = split(%(n)d)
+first = parts[0]
+meta = parts[1]['n']
+a, b = iteratetask(first, 2)
+arr = total(np.arange(6.).reshape(2, 3).T, tags=frozenset(['x', 'y']))
+both = total([a, b], scale={'w': [1, 2], 'v': (None, 'q')})
+shifted = Tasklet(base, lambda v, d=%(k)d: v + d)
+late = total([shifted, meta])
+mapped = jug_map(double, list(range(%(n)d)), map_step=2)
+picked = mapped[1]
+""",
+    'second.py': """from jug import TaskGenerator
+
+
+@TaskGenerator
+def double(x):
+    return x + x
+
+
+@TaskGenerator
+def report(*rows, **named):
+    return len(rows) + len(named)
+
+
+rows = [double(i) for i in range(%(n)d)]
+out = report(*rows, title='t%(k)d', keys={'k1', 'k2'})
+head = out[0]
+""",
+}
+
+
+def load_section(ck, seeds):
+    """loading the same jugfile twice - in the same or in another process, by whatever path - yields the same names and identifiers"""
+    import os
+    import subprocess
+    import sys
+    from . import jugrun
+    subst = {'k': ck.rng.randint(2, 9), 'n': ck.rng.randint(3, 6)}
+    with jugrun.scratch_dir('c07load') as d:
+        os.makedirs(os.path.join(d, 'proj'))
+        os.makedirs(os.path.join(d, 'elsewhere'))
+        for nm, src in JUGFILES.items():
+            with open(os.path.join(d, 'proj', nm), 'w') as fh:
+                fh.write(src % subst)
+        outs = {}
+        procs = []
+        for s in seeds:
+            env = dict(os.environ)
+            env.update(PYTHONHASHSEED=str(s), PYTHONPATH=core.VERIF + os.pathsep + core.REPO, PYTHONDONTWRITEBYTECODE='1')
+            out = os.path.join(d, 'load%d.json' % s)
+            procs.append((s, out, subprocess.Popen([sys.executable, '-m', 'harness.c07load', d, out], env=env, cwd=core.VERIF,
+                                                   stdout=subprocess.PIPE, stderr=subprocess.PIPE, text=True)))
+        for s, out, p in procs:
+            so, se = p.communicate(timeout=600)
+            if p.returncode != 0 or not os.path.exists(out):
+                ck.broken.append('c07load (PYTHONHASHSEED=%s) failed: %s' % (s, se[-400:]))
+                return
+            import json
+            outs[s] = json.load(open(out))
+    ref = {}
+    reported = 0
+    for s in seeds:
+        for rec in outs[s]:
+            ck.case_total += 1
+            ck.count('load:' + rec['how'])
+            ck.distinct(('load', rec['jugfile'], rec['how'], s), True)
+            if rec.get('error'):
+                ck.broken.append('jug.init failed on a generated jugfile (%s, %s): %s' % (rec['jugfile'], rec['how'], rec['error'][:200]))
+                continue
+            key = rec['jugfile']
+            if key not in ref:
+                ref[key] = (s, rec)
+                if len(rec['tasks']) < 3 or not rec['tasklets']:
+                    ck.broken.append('generated jugfile %s defines too little: %r' % (key, rec['tasks']))
+                continue
+            s0, r0 = ref[key]
+            if rec['tasks'] != r0['tasks'] or rec['tasklets'] != r0['tasklets']:
+                reported += 1
+                if reported > 3:
+                    ck.count('load:differs(not reported)')
+                    continue
+                diff = [(x, y) for x, y in zip(r0['tasks'] + r0['tasklets'], rec['tasks'] + rec['tasklets']) if x != y][:3]
+                ck.violation({'kind': 'impl-violation', 'what': 'loading the same jugfile again (another path / working directory / process) yields other task names or identifiers',
+                              'jugfile': key, 'jugfile_source': JUGFILES[key] % subst, 'subst': subst,
+                              'first_load': {k: r0[k] for k in ('how', 'path', 'cwd', 'nth_load_in_process')}, 'first_seed': s0,
+                              'this_load': {k: rec[k] for k in ('how', 'path', 'cwd', 'nth_load_in_process')}, 'this_seed': s,
+                              'first_differences(first, this)': diff, 'seeds': seeds})
+    ck.sample({'jugfile': 'pipeline.py', 'tasks': ref.get('pipeline.py', (0, {'tasks': []}))[1]['tasks'][:3]})
 
 
 def tree_diff(a, b):
@@ -225,6 +342,31 @@ def order_dependence(ck, specs, results, seeds):
 
 
 def replay(obj):
+    if 'jugfile_source' in obj:
+        import json
+        import os
+        import subprocess
+        import sys
+        from . import jugrun
+        rc = 0
+        ref = None
+        with jugrun.scratch_dir('c07load') as d:
+            os.makedirs(os.path.join(d, 'proj'))
+            os.makedirs(os.path.join(d, 'elsewhere'))
+            with open(os.path.join(d, 'proj', obj['jugfile']), 'w') as fh:
+                fh.write(obj['jugfile_source'])
+            for s in obj.get('seeds', [1, 2]):
+                env = dict(os.environ)
+                env.update(PYTHONHASHSEED=str(s), PYTHONPATH=core.VERIF + os.pathsep + core.REPO, PYTHONDONTWRITEBYTECODE='1')
+                out = os.path.join(d, 'o%d.json' % s)
+                subprocess.run([sys.executable, '-m', 'harness.c07load', d, out], env=env, cwd=core.VERIF, capture_output=True, text=True)
+                recs = json.load(open(out))
+                ref = ref or recs[0]
+                for r in recs:
+                    same = r.get('tasks') == ref.get('tasks') and r.get('tasklets') == ref.get('tasklets') and not r.get('error')
+                    print('PYTHONHASHSEED=%s %-28s %-34s %s %s' % (s, r['how'], r['path'], 'same' if same else 'DIFFERENT', (r.get('tasks') or [['', '']])[0]))
+                    rc = rc or (0 if same else 1)
+        return rc
     if 'first' in obj:
         res = hashgen.run_workers([obj['spec'], ['seq', [obj['first'], obj['spec']]]], [1], 'replay', mode='iso')[0]
         print('identifier of spec alone:            ', res[0].get('digest'), res[0].get('error', ''))
